@@ -1,4 +1,4 @@
-\* thorough, analysis-centred: every model of 2 or 3 types out of {a.A, a.Main, b.B, C (unnamed package)}, at most one
+\* thorough, analysis-centred: every model of 2 or 3 types out of {a.A, a.Main, b.AMain, C (unnamed package)}, at most one
 \* relation item per class over all 6 kinds x 5 targets, x {none, H, P, HP}, no filter (cases are not emitted: see the Gen cfgs)
 SPECIFICATION Spec
 CONSTANTS
